@@ -117,6 +117,53 @@ theorem first_key_only_rejects_valid :
       (.tagged "pet-type".toList [([.str "cat".toList], "Cat".toList), ([.str "dog".toList], "Dog".toList)])
       puppy = .reject := by decide +kernel
 
+/-! ### second half of the property: serialising the accepted object by wire name gives the value back -/
+
+/-- FULL STRENGTH: a valid value is dumped back unchanged. Kept visible; FALSE on the pinned tree
+(known finding D19, refuted below): an open object schema (`additionalProperties` absent) admits members
+it does not declare, the generated class has pydantic's default `extra` (ignore) and drops them. -/
+def DumpRoundtrip : Prop :=
+  ∀ (st : Style) (o : Opts) (re : Regex) (defs : Defs) (f g : Nat) (ctx : Ctx) (s : Schema) (v : Json),
+    validJ re f defs s v = true →
+      dump st re g (trDefs st o defs) (tr st o ctx s) v = v
+
+/-- PARTIAL (unbounded in schema depth, value size, `$ref` recursion, both fuels; both styles, all
+routings, every regex oracle; nested models, lists, dicts, unions, tagged unions, allOf classes):
+a valid value WITHOUT UNDECLARED MEMBERS — the decidable hypothesis `declared`: wherever the dump meets a
+class with the default `extra`, every member of the object is declared by the class or a base — is
+not rejected, and dumping it by wire name (unset members excluded) returns the same JSON value:
+aliases are the original names, absent optional members stay absent, nulls stay nulls. -/
+theorem dump_roundtrip_partial (st : Style) (o : Opts) (re : Regex) (defs : Defs)
+    (hd : defsInSubset defs = true) (f g : Nat) (ctx : Ctx) (s : Schema) (v : Json)
+    (hs : s.inSubset = true) (hv : validJ re f defs s v = true)
+    (hdecl : declared st re g (trDefs st o defs) (tr st o ctx s) v = true) :
+    acceptsTy st re g (trDefs st o defs) (tr st o ctx s) v ≠ .reject ∧
+    dump st re g (trDefs st o defs) (tr st o ctx s) v = v :=
+  ⟨valid_accepted_partial st o re defs hd f g ctx s v hs hv, dump_id st re g _ _ v hdecl⟩
+
+/-- …for EVERY type and value (no schema needed): the only thing `dump` ever does to a value is to drop
+members that a class with the default `extra` does not declare. -/
+theorem dump_identity_on_declared (st : Style) (re : Regex) (g : Nat) (D : IRDefs) (t : Ty) (v : Json)
+    (h : declared st re g D t v = true) : dump st re g D t v = v :=
+  dump_id st re g D t v h
+
+/-- REFUTATION of `DumpRoundtrip` (known finding D19): `{"type":"object","properties":{"a":{"type":"integer"}}}`
+admits `{"a":1,"zz":2}`; the class accepts it and dumps `{"a":1}`. -/
+theorem dump_roundtrip_false_D19 : ¬ DumpRoundtrip := by
+  intro h
+  have := h .v2 {} (fun _ _ => true) [] 3 4 .top
+    (.object [("a".toList, .scalar .integer false {})] [] .absent)
+    (.obj [("a".toList, .num ⟨1, 0⟩), ("zz".toList, .num ⟨2, 0⟩)]) (by decide +kernel)
+  have hw := congrArg Json.width this
+  revert hw
+  decide +kernel
+
+/-- the witness is accepted, and it is outside `declared`, as it must be -/
+example : acceptsTy .v2 (fun _ _ => true) 4 [] (tr .v2 {} .top (.object [("a".toList, .scalar .integer false {})] [] .absent))
+      (.obj [("a".toList, .num ⟨1, 0⟩), ("zz".toList, .num ⟨2, 0⟩)]) = .accept ∧
+    declared .v2 (fun _ _ => true) 4 [] (tr .v2 {} .top (.object [("a".toList, .scalar .integer false {})] [] .absent))
+      (.obj [("a".toList, .num ⟨1, 0⟩), ("zz".toList, .num ⟨2, 0⟩)]) = false := by decide +kernel
+
 /-- the document a test would write: closed object, required bounded integer, optional nullable
 string with length bounds, array of a recursive definition -/
 def demoDefs : Defs :=
@@ -139,6 +186,13 @@ example : demoSchema.inSubset = true ∧ defsInSubset demoDefs = true ∧
       = .accept ∧
     acceptsTy .v1 (fun _ _ => true) 12 (trDefs .v1 { fieldConstraints := true } demoDefs)
       (tr .v1 { fieldConstraints := true } .top demoSchema) demoValue = .accept := by
+  decide +kernel
+
+/-- non-vacuity of `dump_roundtrip_partial`: the demo value (absent optional member, a null, a list of
+recursive models) and the `puppy` of the discriminator demo satisfy `declared` -/
+example : declared .v2 (fun _ _ => true) 12 (trDefs .v2 {} demoDefs) (tr .v2 {} .top demoSchema) demoValue = true ∧
+    (dump .v2 (fun _ _ => true) 12 (trDefs .v2 {} demoDefs) (tr .v2 {} .top demoSchema) demoValue).beq demoValue = true ∧
+    declared .v1 (fun _ _ => true) 8 (trDefs .v1 {} petDefs) (tr .v1 {} .plain petUnion) puppy = true := by
   decide +kernel
 
 /-- …and the models do reject: one step outside the exclusive bound -/
